@@ -16,7 +16,8 @@ Variable kids : xml -> list kid.
 Variable mime : bytes -> mtype.
 Variable mime_bytes : mtype -> bytes.
 Variable rdf0 : bytes.
-Variable mask : xml -> xml.
+Variable proj : Type.
+Variable mask : xml -> proj.
 Hypothesis par_ser : forall x, par (ser x) = x.
 Notation document := (document xml bytes).
 Notation fsys := (fsys bytes kid).
@@ -25,7 +26,7 @@ Notation dX := (dX xml bytes kid par).
 Notation WFd := (WFd xml bytes kid).
 Notation FsOK := (FsOK bytes kid).
 Notation SInv := (SInv xml bytes kid).
-Notation view := (view xml bytes kid par mask).
+Notation view := (view xml bytes kid par proj mask).
 Notation d_clone := (d_clone xml bytes kid ser par FIXED).
 Notation step := (step xml bytes kid ser par pretty stamp entries with_entries kids mime mime_bytes rdf0 FIXED).
 
@@ -157,8 +158,8 @@ Proof.
     { unfold Package.check_rdf.
       pose proof (d_tree_sem xml bytes kid par fs MANIFEST _ W2 is_xml_MANIFEST) as [_ [_ [_ [_ [U5 _]]]]].
       destruct (d_tree xml bytes kid par FIXED fs MANIFEST _) as [dm [xm|]]; cbn [fst] in *; [|congruence].
-      destruct (match m_get RDF (entries xm) with Some m => negb (m =? EMPTYMT) | None => false end);
-        destruct (memz RDF (c_listing bytes kid fs (cont _ _ dm))); cbn [fst cont d_with_cont c_set_part c_del_part c_with_parts cpath]; congruence. }
+      destruct (rdf_listed FIXED (entries xm));
+        destruct (memz RDF (c_listing bytes kid FIXED fs (cont _ _ dm))); cbn [fst cont d_with_cont c_set_part c_del_part c_with_parts cpath]; congruence. }
     destruct (check_rdf xml bytes kid par entries rdf0 FIXED fs _) as [d3 ok3]. cbn [fst] in *.
     destruct ok3; cbn [negb]; [|cbn [fst snd]; exact P3].
     assert (P4 : forall pty0, cpath _ (cont _ _ (fst (if pty0 && negb (pk_eqb pk PXml)
